@@ -279,12 +279,28 @@ def run(rep: Report, prog: Program, tier: str) -> None:
         rep.ok("C03-MIRROR", "createAnswer: section kind follows the remote section", sample=unparse(kinds_test[0].test))
     else:
         rep.fail(mk_finding(prog, PROP, "C03-MIRROR", create_answer, loop, "the kind of an answered section is not taken from the remote section", construct="section kind"))
+    def builds_bundle(fn_node: ast.AST) -> bool:
+        """`for m in <d>.media: <b>.items.append(m.rtp.muxId)` — the group lists every section's mid in order."""
+        for n in ast.walk(fn_node):
+            if isinstance(n, ast.For) and unparse(n.iter).endswith(".media") and isinstance(n.target, ast.Name) and len(n.body) == 1:
+                b = n.body[0]
+                if isinstance(b, ast.Expr) and isinstance(b.value, ast.Call) and unparse(b.value.func).endswith(".items.append") \
+                        and len(b.value.args) == 1 and unparse(b.value.args[0]) == f"{n.target.id}.rtp.muxId":
+                    return True
+            # comprehension form: items=[m.rtp.muxId for m in d.media]
+            if isinstance(n, ast.ListComp) and len(n.generators) == 1 and unparse(n.generators[0].iter).endswith(".media") and not n.generators[0].ifs \
+                    and isinstance(n.generators[0].target, ast.Name) and unparse(n.elt) == f"{n.generators[0].target.id}.rtp.muxId":
+                return True
+        return False
+    cg3 = None
     for fi in (create_answer, create_offer):
-        ok = False
-        for n in walk_no_nested(fi.node):
-            if isinstance(n, ast.For) and unparse(n.iter) == "description.media" and isinstance(n.target, ast.Name):
-                body = [unparse(b) for b in n.body]
-                if body == [f"bundle.items.append({n.target.id}.rtp.muxId)"]:
+        ok = builds_bundle(fi.node)
+        if not ok:
+            # the construction may live in a helper that is handed the description
+            from engine.callgraph import CallGraph
+            cg3 = cg3 or CallGraph(prog)
+            for cs in cg3.sites(fi):
+                if isinstance(cs.node, ast.Call) and any(unparse(a) == "description" for a in cs.node.args) and any(builds_bundle(t.node) for t in cs.targets):
                     ok = True
         if ok:
             rep.ok("C03-MIRROR", f"{fi.name}: BUNDLE group lists every section's mid in order", sample="for media in description.media: bundle.items.append(media.rtp.muxId)")
